@@ -1496,12 +1496,15 @@ async fn inbound_replay() {
         }
         let remote_asn = match peer {
             "ebgp" => 65010,
+            "rs" => 65020,
             "ibgp" => 65001,
             _ => 65002,
         };
+        let external = peer == "ebgp" || peer == "rs";
         let mut p = base_params(addr);
         p.expected_remote_asn = remote_asn;
         p.local_asn = 65001;
+        p.rs_client = peer == "rs";
         global.write().await.add_peer(p, None).unwrap();
         let (client, server) = pair_from(Ipv4Addr::new(127, 0, 0, 1)).await;
         let sess = accept_connection(&global, &tables, server, crate::fsm::Role::Passive).await.expect("accept");
@@ -1542,9 +1545,8 @@ async fn inbound_replay() {
             packet::Attribute::new_with_value(packet::Attribute::ORIGIN, 0).unwrap(),
             packet::Attribute::new_with_bin(packet::Attribute::AS_PATH, asp.clone()).unwrap(),
         ];
-        if peer != "ebgp" {
-            attrs.push(packet::Attribute::new_with_value(packet::Attribute::LOCAL_PREF, 100).unwrap());
-        }
+        // an external peer has no business sending LOCAL_PREF: it does all the same (777), to see whether it is believed
+        attrs.push(packet::Attribute::new_with_value(packet::Attribute::LOCAL_PREF, if external { 777 } else { 100 }).unwrap());
         match lp {
             "originator_local" => attrs.push(packet::Attribute::new_with_value(packet::Attribute::ORIGINATOR_ID, u32::from(local_rid)).unwrap()),
             "originator_other" => attrs.push(packet::Attribute::new_with_value(packet::Attribute::ORIGINATOR_ID, u32::from(Ipv4Addr::new(9, 9, 9, 9))).unwrap()),
@@ -1576,7 +1578,7 @@ async fn inbound_replay() {
             packet::Attribute::new_with_value(packet::Attribute::ORIGIN, 0).unwrap(),
             packet::Attribute::new_with_bin(packet::Attribute::AS_PATH, masp).unwrap(),
         ];
-        if peer != "ebgp" {
+        if !external {
             mattrs.push(packet::Attribute::new_with_value(packet::Attribute::LOCAL_PREF, 100).unwrap());
         }
         r.send(&bgp::Message::Update(bgp::Update::Reach {
@@ -1607,6 +1609,9 @@ async fn inbound_replay() {
                         }
                         if a.code() == packet::Attribute::CLUSTER_LIST {
                             kept.push("\"CL\"");
+                        }
+                        if a.code() == packet::Attribute::LOCAL_PREF && a.value() == Some(777) {
+                            kept.push("\"LP\"");
                         }
                     }
                 }
